@@ -182,15 +182,20 @@ class QueueSemantivaOrchestrator:
 
                 # If the user requested a Future, resolve it now
                 if jid in self.pending_futures:
+                    future = self.pending_futures.pop(jid)
                     error = (msg.metadata or {}).get("error")
-                    if error is not None:
-                        # The worker reported a failure: complete the Future exceptionally
-                        if not isinstance(error, BaseException):
-                            error = RuntimeError(str(error))
-                        self.pending_futures[jid].set_exception(error)
-                    else:
-                        self.pending_futures[jid].set_result((msg.data, msg.context))
-                    del self.pending_futures[jid]
+                    # A caller may have cancelled the Future while the job was in
+                    # flight: there is nobody to deliver to, and completing a
+                    # cancelled Future raises InvalidStateError (which would end this
+                    # loop and leave every other job's Future pending).
+                    if future.set_running_or_notify_cancel():
+                        if error is not None:
+                            # The worker reported a failure: complete the Future exceptionally
+                            if not isinstance(error, BaseException):
+                                error = RuntimeError(str(error))
+                            future.set_exception(error)
+                        else:
+                            future.set_result((msg.data, msg.context))
 
                 # Acknowledge receipt if transport supports it
                 try:
